@@ -42,6 +42,11 @@ def skHash (st : SkSt) (k : Nat) : BitVec 64 :=
 def skStep (st : SkSt) (line : String) (t : Tally) : Except String (SkSt × Tally) :=
   let ws := splitWs line
   match ws with
+  | "eqkeys" :: rest =>
+    let n := natOf rest "n"
+    let f := natOf rest "f"
+    if f < min n 15 then .error s!"C18: a {(kvOf rest "type").getD "?"} key recorded {n} times has estimate {f} when asked through an equal (==) key of another representation"
+    else .ok (st, t.bump "equal_key_estimates")
   | ["hash", k, h] => .ok ({ st with hashes := (k.toNat!, BitVec.ofNat 64 h.toNat!) :: st.hashes.filter (·.1 != k.toNat!) }, t)
   | "ensure" :: n :: "=>" :: rest =>
     let (s', changed) := Impl.Sketch.ensureCapacity st.s (BitVec.ofNat 64 n.toNat!)
@@ -304,6 +309,7 @@ def cpStep (_st : Unit) (line : String) (t : Tally) : Except String (Unit × Tal
     else if g "ws" != g "sumtable" then .error s!"C05: weightedSize = {g "ws"} but the entries present weigh {g "sumtable"}"
     else if g "coldest" != g "all" then .error s!"C05: Coldest enumerates {g "coldest"} entries, All {g "all"}"
     else if g "sumtable" > g "max" then .error s!"C04: at quiescence after CleanUp the entries weigh {g "sumtable"}, maximum {g "max"}"
+    else if g "rb" != 0 then .error s!"C17: {g "rb"} successfully recorded reads are still in the read buffer although the cache is quiescent and maintenance has run"
     else .ok ((), t)
   | _ => .error "unknown line"
 
